@@ -149,6 +149,34 @@ Theorem C11_files_transfer_total : forall ins,
 Proof. intros ins W. exact (merge_files_from_total ins [] W). Qed.
 Print Assumptions C11_files_transfer_total.
 
+(* --- 7. the merged tree does not depend on what the destination held before: a merge into a directory that
+        already contains files (an earlier merge, an interrupted copy, stale files of the same or another size)
+        fails exactly when the merge into an empty directory fails, and otherwise leaves, under every merged name,
+        the bytes that the merge into an empty directory produces (the transfer overwrites), and every other file
+        of the destination as it was *)
+Theorem C11_files_overwrite_destination : forall dest ins,
+  (merge_files_onto dest ins = None <-> merge_files ins = None) /\
+  (forall out fs, merge_files ins = Some out -> merge_files_onto dest ins = Some fs ->
+     forall p, lookup p fs = match lookup p out with Some b => Some b | None => lookup p dest end).
+Proof.
+  intros dest ins. pose proof (merge_files_onto_spec dest ins) as S.
+  destruct (merge_files ins) as [out|], (merge_files_onto dest ins) as [fs|]; try contradiction.
+  - split; [split; discriminate|]. intros out' fs' [= <-] [= <-] p. apply S.
+  - split; [tauto|]. intros out fs E; discriminate.
+Qed.
+Print Assumptions C11_files_overwrite_destination.
+
+Corollary C11_files_independent_of_destination : forall dest1 dest2 ins out fs1 fs2 p b,
+  merge_files ins = Some out -> lookup p out = Some b ->
+  merge_files_onto dest1 ins = Some fs1 -> merge_files_onto dest2 ins = Some fs2 ->
+  lookup p fs1 = Some b /\ lookup p fs2 = Some b.
+Proof.
+  intros dest1 dest2 ins out fs1 fs2 p b E L E1 E2.
+  rewrite (proj2 (C11_files_overwrite_destination dest1 ins) out fs1 E E1 p),
+          (proj2 (C11_files_overwrite_destination dest2 ins) out fs2 E E2 p), L. split; reflexivity.
+Qed.
+Print Assumptions C11_files_independent_of_destination.
+
 (* --- non-vacuity: three inputs, colour-less clouds of different sizes, an input without points whose
        observations are dropped, an empty coloured cloud that does not impose its column count, the same
        image name in two inputs, two observations of the same (point, type, image) *)
@@ -170,7 +198,10 @@ Example C11_example :
   /\ merge_po [(Some (mkCloud 3 [[1;2;3]]), None); (Some (mkCloud 6 [[1;2;3;4;5;6]]), None)] = ErrShape
   /\ merge_files [[mkF "k/a.kpt" false 8 "abc"]; [mkF "k/a.kpt" true 8 "zzzzzzzz"; mkF "k/b.kpt" true 4 "12345678"]]
      = Some [("k/a.kpt"%string, "abc"%string); ("k/b.kpt"%string, "12345678"%string)]
-  /\ merge_files [[mkF "k/b.kpt" true 8 "123"]] = None.
+  /\ merge_files [[mkF "k/b.kpt" true 8 "123"]] = None
+  /\ merge_files_onto [("k/a.kpt"%string, "old"%string); ("k/zz.kpt"%string, "keep"%string)]
+                      [[mkF "k/a.kpt" false 8 "abc"]; [mkF "k/b.kpt" true 4 "12345678"]]
+     = Some [("k/a.kpt"%string, "abc"%string); ("k/zz.kpt"%string, "keep"%string); ("k/b.kpt"%string, "12345678"%string)].
 Proof.
   cbv zeta. split; [vm_compute; reflexivity|]. split.
   - repeat constructor; cbn; lia.
